@@ -652,8 +652,11 @@ func (e *c11Env) manageHistories() {
 			used := map[string]bool{}
 			shuffled := append([]string{}, everyone...)
 			e.r.Shuffle(len(shuffled), func(i, j int) { shuffled[i], shuffled[j] = shuffled[j], shuffled[i] })
-			valid := e.r.Intn(10) < 8
+			allValid := e.r.Intn(10) < 6
 			for _, a := range shuffled {
+				// a request is either valid throughout, or each item is invalid with probability 0.3
+				// (the invalid ones make UpdatePermissions fail after the earlier items were written)
+				valid := allValid || e.r.Intn(10) < 7
 				switch e.r.Intn(6) {
 				case 0: // revoke all
 					if (len(has[a]) > 0) == valid && !used[a] {
